@@ -215,12 +215,81 @@ def _block_stub(block, agg):
         render = render_rule(prof)
         q, viol = eval_stub(prof, render)
         agg.case(list(prof), sum(1 for x in prof if x) >= 2, q, sample=prof[3] == 61)
+        agg.transitions += 1
         for kd, sig, d in viol:
             agg.violation(kd, dict(sig, family=fam), {"profile": list(prof), "render": render, "stub": True, "prev": [list(first), list(prev)] if prev else None, "family": fam}, d)
         prev = prof
 
 
+# ---------------------------------------------------------------------------------------
+# (4) one Codebase object over a history of add_file / aggregate / summary operations
+# ---------------------------------------------------------------------------------------
+
+HIST_FILES = [("top.py", [10, 10, 10, 10, 10, 10, 10, 10, 10, 10]),      # easy only
+              ("d/mid.py", [12, 12, 12, 45]),                            # some hard-to-maintain
+              ("d/e/deep.py", [20, 35]),                                 # verbose + hard
+              ("d/e/f/big.py", [8, 8, 8, 8, 8, 8, 8, 8, 8, 8, 8, 8, 8, 8, 8, 8, 8, 8, 8, 8, 8, 8, 8, 8, 8, 8, 8, 8, 8, 8, 8, 8, 8, 8, 8, 8, 8, 8, 8, 8, 61])]
+
+
+def histories(max_len):
+    """every sequence of <= max_len operations over {add file i (each at most once), aggregate, ask for the summary}"""
+    ops = [("add", i) for i in range(len(HIST_FILES))] + [("aggregate",), ("summary",)]
+
+    def rec(prefix):
+        yield prefix
+        if len(prefix) == max_len:
+            return
+        for op in ops:
+            if op[0] == "add" and op in prefix:
+                continue
+            yield from rec(prefix + [op])
+    for h in rec([]):
+        if any(o[0] == "add" for o in h):
+            yield h
+
+
+def eval_history(hist):
+    """after the history the summary must show the true shares of what has been added so far (also at every 'summary' step)"""
+    from codelimit.common.Codebase import Codebase
+    from codelimit.common.report.Report import Report
+
+    cb = Codebase("/root")
+    rep = Report(cb)
+    true = [0, 0, 0, 0]
+    viol = []
+    q = None
+    for step, op in enumerate(list(hist) + [("summary",)]):
+        if op[0] == "add":
+            path, lengths = HIST_FILES[op[1]]
+            cb.add_file(harness.file_entry(path, "Python", lengths))
+            for L in lengths:
+                true[harness.category(L)] += L
+        elif op[0] == "aggregate":
+            cb.aggregate()
+        else:
+            for which, r in (("same-report", rep), ("new-report", Report(cb))):
+                q = r.quality_profile_percentage()
+                shown = (q[0] + q[1], q[2], q[3])
+                for k, sig, d in check_numbers(tuple(true), shown) + check_render(tuple(true), shown, r):
+                    viol.append((k, dict(sig, family="codebase-history", report=which), f"after {hist[:step]}: {d}"))
+    return q, viol
+
+
+def _block_history(block, agg):
+    _, max_len, shard, nshards = block
+    for i, h in enumerate(histories(max_len)):
+        if i % nshards != shard:
+            continue
+        q, viol = eval_history(h)
+        agg.case({"history": h}, sum(1 for o in h if o[0] != "add") >= 1, tuple(q), sample=len(h) == max_len and i % 97 == 0)
+        agg.transitions += len(h) + 1
+        for kind, sig, detail in viol:
+            agg.violation(kind, sig, {"history": h}, detail)
+
+
 def _dispatch(block, agg):
+    if block[0] == "history":
+        return _block_history(block, agg)
     if block[0] in ("all", "large", "dominant"):
         _block_stub(block, agg)
     else:
@@ -234,6 +303,7 @@ def _block(block, agg):
         q, viol = eval_profile(prof, render)
         nontrivial = sum(1 for x in prof if x) >= 2
         agg.case(list(prof), nontrivial, q, sample=nontrivial and prof[3] > 0 and prof[2] > 0)
+        agg.transitions += 1
         if render:
             agg.extra["rendered"] += 1
         for kind, sig, detail in viol:
@@ -241,6 +311,9 @@ def _block(block, agg):
 
 
 def replay(case):
+    if "history" in case:
+        _, viol = eval_history([tuple(o) for o in case["history"]])
+        return [{"kind": k, "sig": s, "detail": d} for k, s, d in viol]
     if case.get("stub"):
         _SHARED.clear()
         for pv in case.get("prev") or []:
@@ -261,7 +334,9 @@ def run(ctx: core.Ctx):
                 "max_total_rendered. (2) all-tuples: EVERY 4-tuple of non-negative integers with sum <= all_tuples_max_total, and one-dominant: every tuple with three "
                 "entries <= max_other and one entry up to max_dominant; both pushed through the real percentage code on ONE long-lived Report whose quality_profile is "
                 "substituted per case, enumerated by total so that equal-total profiles follow each other on the same object. (3) large-structured: one dominant category at 10^3..10^7 x every combination of a 9-value menu for the other three, rendered. "
-                "Non-trivial: at least two non-empty categories. Outcome = the shown quadruple.")
+                "(4) codebase-history: ONE Codebase (files at folder depths 0..3 with different category mixes) under every sequence of <= max_operations operations "
+                "{add_file, aggregate, summary}; at every summary - asked of a Report created before the history and of a fresh one - the shown numbers must be "
+                "the true shares of the functions added so far. Non-trivial: at least two non-empty categories. Outcome = the shown quadruple.")
     ctx.assumptions = ["percentages depend on the profile only (Report.quality_profile is recomputed and asserted per case)"]
     blocks = []
     for p3 in range(0, T + 1):
@@ -282,4 +357,8 @@ def run(ctx: core.Ctx):
         blocks.append(("dominant", lo, min(dom[0], lo + step), dom[1]))
     for scale in ctx.bounds["structured_large_scales"]:
         blocks.append(("large", scale))
+    hl = ctx.pick(4, 5)
+    ctx.bounds["codebase_history"] = {"max_operations": hl, "operations": ["add_file (4 files at depths 0..3, each once)", "aggregate", "summary"], "histories": sum(1 for _ in histories(hl))}
+    for sh in range(ctx.workers):
+        blocks.append(("history", hl, sh, ctx.workers))
     ctx.run_blocks(_dispatch, blocks)
